@@ -6,6 +6,17 @@ mod c15c;
 use dpmc::report::{parse_args, run_check, CheckSpec, Scenario, Tier};
 use serde_json::json;
 
+/// Worker threads for scenarios on real SQLite connections: all of them by
+/// default (with SQLite's allocation statistics switched off in `main` they
+/// scale; with the statistics on, 16 workers were 4x *slower* than one - 130 s
+/// of futex time for 14 428 executions).  `DPMC_SQLITE_THREADS` overrides.
+fn sqlite_bound(mut sc: Scenario) -> Scenario {
+    if let Some(n) = std::env::var("DPMC_SQLITE_THREADS").ok().and_then(|v| v.parse().ok()) {
+        sc.threads = Some(n);
+    }
+    sc
+}
+
 fn spec_for(prop: &str, tier: Tier) -> Option<CheckSpec> {
     let thorough = tier == Tier::Thorough;
     let mut scenarios = Vec::new();
@@ -30,14 +41,14 @@ fn spec_for(prop: &str, tier: Tier) -> Option<CheckSpec> {
         }
         "C15" => {
             for ms in [1usize, 2] {
-                let depth = if thorough { 7 } else if ms == 1 { 6 } else { 5 };
+                let depth = if thorough { 10 } else if ms == 1 { 8 } else { 7 };
                 let sc = c15::C15Scenario { ms, depth };
                 let s1 = sc.clone();
-                scenarios.push(Scenario::new(&format!("sqlite/ms{}", ms), "real rusqlite :memory: connections identified by PRAGMA user_version; histories of get / interact ok / panic / panic with dropped future / return", 0, 0, move || c15::run_c15::<c15::Sqlite>(&s1)));
+                scenarios.push(sqlite_bound(Scenario::new(&format!("sqlite/ms{}", ms), "real rusqlite :memory: connections identified by PRAGMA user_version; histories of get / interact ok / panic / panic with dropped future / return", 0, 0, move || c15::run_c15::<c15::Sqlite>(&s1))));
                 let s2 = sc.clone();
                 scenarios.push(Scenario::new(&format!("r2d2/ms{}", ms), "scripted r2d2::ManageConnection; connections may be poisoned, marked has_broken or fail is_valid", 0, 0, move || c15::run_c15::<c15::R2d2>(&s2)));
-                let s3 = c15::C15Scenario { ms, depth: if thorough { 6 } else if ms == 1 { 5 } else { 4 } };
-                scenarios.push(Scenario::new(&format!("diesel-sqlite/ms{}", ms), "real diesel SqliteConnection :memory:; recycling methods Fast / Verified (open transaction), CustomQuery (failing query), CustomFunction (failing check); poisoned or broken connections", 0, 0, move || c15::run_c15::<c15::DieselSqlite>(&s3)));
+                let s3 = c15::C15Scenario { ms, depth: if thorough { 9 } else if ms == 1 { 7 } else { 6 } };
+                scenarios.push(sqlite_bound(Scenario::new(&format!("diesel-sqlite/ms{}", ms), "real diesel SqliteConnection :memory:; recycling methods Fast / Verified (open transaction), CustomQuery (failing query), CustomFunction (failing check); poisoned or broken connections", 0, 0, move || c15::run_c15::<c15::DieselSqlite>(&s3))));
             }
             for panic in [false, true] {
                 let tag = if panic { "panics" } else { "breaks" };
@@ -46,10 +57,10 @@ fn spec_for(prop: &str, tier: Tier) -> Option<CheckSpec> {
                 let s1 = sc.clone();
                 scenarios.push(Scenario::new(&format!("late-closure/r2d2/{}", tag), "thread level: the user's closure (its future possibly dropped) is still queued or running on the blocking pool while the connection is returned and recycled by the next get(); closures are actors that can hold the wrapper's lock across scheduling points", p, 1, move || c15c::run_c15c::<c15::R2d2>(&s1)));
                 let s2 = sc.clone();
-                scenarios.push(Scenario::new(&format!("late-closure/diesel-sqlite/{}", tag), "same on the real diesel SqliteConnection pool, every recycling method", if thorough { 3 } else { 2 }, 1, move || c15c::run_c15c::<c15::DieselSqlite>(&s2)));
+                scenarios.push(sqlite_bound(Scenario::new(&format!("late-closure/diesel-sqlite/{}", tag), "same on the real diesel SqliteConnection pool, every recycling method", if thorough { 4 } else { 3 }, 1, move || c15c::run_c15c::<c15::DieselSqlite>(&s2))));
                 if panic {
                     let s3 = sc.clone();
-                    scenarios.push(Scenario::new("late-closure/sqlite/panics", "same on the real rusqlite pool (a panicking closure is the only way to break a connection there)", if thorough { 3 } else { 2 }, 1, move || c15c::run_c15c::<c15::Sqlite>(&s3)));
+                    scenarios.push(sqlite_bound(Scenario::new("late-closure/sqlite/panics", "same on the real rusqlite pool (a panicking closure is the only way to break a connection there)", if thorough { 4 } else { 3 }, 1, move || c15c::run_c15c::<c15::Sqlite>(&s3))));
                 }
             }
             rule = "every history (depth bound) over get / interact ok / interact panic / interact panic with dropped future / mark broken / return, every recycling method; distinct = distinct operation/result log".into();
@@ -71,6 +82,14 @@ fn spec_for(prop: &str, tier: Tier) -> Option<CheckSpec> {
 }
 
 fn main() {
+    // SQLite keeps allocation statistics behind one process-wide mutex; they
+    // are of no use here and serialise the workers.  Must precede any other
+    // SQLite call.
+    if std::env::var_os("DPMC_SQLITE_MEMSTATUS").is_none() {
+        unsafe {
+            rusqlite::ffi::sqlite3_config(rusqlite::ffi::SQLITE_CONFIG_MEMSTATUS, 0i32);
+        }
+    }
     let args = parse_args();
     match spec_for(args.spec.as_deref().unwrap_or(&args.property), args.tier) {
         Some(mut s) => {
